@@ -6,6 +6,7 @@
 -/
 import Scale.Encode
 import Scale.Decode
+import Scale.Entry
 namespace Scale.Driver
 open Scale
 
@@ -199,6 +200,11 @@ def showDec (r : Res Val × Bytes) : String :=
   | (.err, _) => "err"
   | (.panic, _) => "panic"
 
+def showResVal : Res Val → String
+  | .ok v => "ok " ++ showVal v
+  | .err => "err"
+  | .panic => "panic"
+
 /-- Answer one request line. -/
 def answer (line : String) : String :=
   let toks := (line.trimAscii.toString.splitOn " ").filter (· ≠ "")
@@ -230,6 +236,71 @@ def answer (line : String) : String :=
       match parseHex h with
       | some bs => showDec (decode ty bs)
       | none => "bad-op"
+    | _ => "bad-op"
+  | "decall" :: rest =>
+    match parseTy rest with
+    | some (ty, [h]) =>
+      match parseHex h with
+      | some bs => showResVal (decodeAll ty bs)
+      | none => "bad-op"
+    | _ => "bad-op"
+  | "limall" :: l :: rest =>
+    match l.toNat?, parseTy rest with
+    | some l, some (ty, [h]) =>
+      match parseHex h with
+      | some bs => showResVal (decodeAllLimit l ty bs)
+      | none => "bad-op"
+    | _, _ => "bad-op"
+  | "limit" :: l :: rest =>
+    match l.toNat?, parseTy rest with
+    | some l, some (ty, [h]) =>
+      match parseHex h with
+      | some bs => showDec (decodeLimit l ty bs)
+      | none => "bad-op"
+    | _, _ => "bad-op"
+  | "mem" :: l :: rest =>
+    match l.toNat?, parseTy rest with
+    | some l, some (ty, [h]) =>
+      match parseHex h with
+      | some bs =>
+        let (r, rest', used) := decodeMemLimit l ty bs
+        showDec (r, rest') ++ " used=" ++ toString used
+      | none => "bad-op"
+    | _, _ => "bad-op"
+  | "count" :: rest =>
+    match parseTy rest with
+    | some (ty, [h]) =>
+      match parseHex h with
+      | some bs =>
+        let (r, rest', c) := decodeCounted ty bs
+        showDec (r, rest') ++ " count=" ++ toString c
+      | none => "bad-op"
+    | _ => "bad-op"
+  | "skip" :: rest =>
+    match parseTy rest with
+    | some (ty, [h]) =>
+      match parseHex h with
+      | some bs =>
+        match skip ty bs with
+        | (.ok (), r) => "ok " ++ toString r.length
+        | (.err, _) => "err"
+        | (.panic, _) => "panic"
+      | none => "bad-op"
+    | _ => "bad-op"
+  | ["len", h] =>
+    match parseHex h with
+    | some bs =>
+      match Impl.decodeLen bs with
+      | .ok n => "ok " ++ toString n
+      | .err => "err"
+      | .panic => "panic"
+    | none => "bad-op"
+  | "fixed" :: rest =>
+    match parseTy rest with
+    | some (ty, []) =>
+      match Impl.encodedFixedSize ty with
+      | some n => "some " ++ toString n
+      | none => "none"
     | _ => "bad-op"
   | _ => "bad-op"
 
